@@ -269,29 +269,37 @@ def oracle(payload):
                         bad.append('skin loads on some objects: loaded %r (conductivities %r, given in the order %r): pulse %d (objects %d / %d) carries %r, closed form x loaded conductor length %r'
                                    % (sorted(sub), [sgs[t] for t in sorted(sub)], order, p.idx, p.segs[0].geobj.tag, p.segs[1].geobj.tag, got, want))
                         break
-                # insulation on the same objects: j w mu0 (1 - 1/eps_r) ln (R / a) / (2 pi) per length of real, insulated conductor
+                # insulation on the same objects: j w mu0 (1 - 1/eps_r) ln (R / a) / (2 pi) per length of real, insulated conductor;
+                # alone, and together with the skin-effect loads (which keep the radius of the bare conductor)
                 eps_r = rng.choice([2.1, 3.5, rng.uniform(1.2, 9)]); fac = rng.uniform(1.3, 3)
-                sp = copy.deepcopy(spec); sp['loads'] = [dict(kind='ins', tag=t, radius_factor=fac, eps=eps_r) for t in order]
-                try:
+                for both in (False, True):
+                  sp = copy.deepcopy(spec); sp['loads'] = [dict(kind='ins', tag=t, radius_factor=fac, eps=eps_r) for t in order]
+                  if both:
+                      sp['loads'] = [dict(kind='skin', tag=t, cond=sgs[t]) for t in order] + sp['loads']
+                  try:
                     mI2 = gen.build(sp)
-                except ValueError:
+                  except ValueError:
                     mI2 = None
-                if mI2 is not None:
-                    for p in mI2.pulses:
-                        want = 0j
-                        for i in (0, 1):
-                            g = p.segs[i].geobj
-                            if g.tag not in sub or p.ground[i]:
-                                continue
-                            want += 1j * omg * MU0 * (eps_r - 1) / eps_r * math.log(fac) / (2 * math.pi) * p.segs[i].seg_len / 2
-                        got = 0j
-                        for l in mI2.loads:
-                            for q in l.pulses:
-                                if q is p: got += l.impedance(f, p)
-                        if abs(got - want) > 1e-9 * max(abs(want), 1e-30):
-                            bad.append('insulation on some objects: insulated %r: pulse %d (objects %d / %d, image halves %r) carries %r, closed form x insulated conductor length %r'
-                                       % (sorted(sub), p.idx, p.segs[0].geobj.tag, p.segs[1].geobj.tag, [bool(x) for x in p.ground], got, want))
-                            break
+                  if mI2 is not None:
+                      for p in mI2.pulses:
+                          want = 0j
+                          for i in (0, 1):
+                              g = p.segs[i].geobj
+                              if g.tag not in sub or p.ground[i]:
+                                  continue
+                              want += 1j * omg * MU0 * (eps_r - 1) / eps_r * math.log(fac) / (2 * math.pi) * p.segs[i].seg_len / 2
+                              if both:
+                                  kk = cmath.sqrt(-1j * omg * MU0 * sgs[g.tag]); kr = kk * g.r_orig
+                                  bz = jv(0, kr) / jv(1, kr) if abs(kr) < 110 else 1j
+                                  want += kk / (2 * math.pi * g.r_orig * sgs[g.tag]) * bz * p.segs[i].seg_len / 2
+                          got = 0j
+                          for l in mI2.loads:
+                              for q in l.pulses:
+                                  if q is p: got += l.impedance(f, p)
+                          if abs(got - want) > 1e-9 * max(abs(want), 1e-30):
+                              bad.append('insulation' + (' and skin-effect loads' if both else '') + ' on some objects: insulated %r: pulse %d (objects %d / %d, image halves %r) carries %r, closed form x insulated conductor length %r'
+                                         % (sorted(sub), p.idx, p.segs[0].geobj.tag, p.segs[1].geobj.tag, [bool(x) for x in p.ground], got, want))
+                              break
             r['bad'] = bad
         except Exception as e:
             r['error'] = exc_info(e)
